@@ -42,7 +42,31 @@ def guards_of(f, bb):
     return edge_guards(f, bb)
 
 
-def floor_guard(e, side):
+def _guarded_in_every_caller(fx, fn, guarded_at, depth=0):
+    """a private helper that is given an already vetted request (`peek_data(back)` under its callers' depth test): every call of it
+    in the crate stands behind the guard - in the caller itself or, for a helper of a helper, in that one's callers"""
+    f = fx.fns.get(fn)
+    if f is None or f.j.get('vis') == 'pub' or '{closure' in fn:
+        return False
+    callers = [c for c in fx.callers().get(fn, ()) if c in fx.fns]
+    if not callers or len(callers) > 8:
+        return False
+    for c in callers:
+        g = fx.fns[c]
+        if not any(callee_of(t) == fn for _, t in g.calls()):
+            return False          # referenced as a function value (a registered word): nobody vets its request
+        for bb, t in g.calls():
+            if callee_of(t) != fn:
+                continue
+            if guarded_at(g, bb):
+                continue
+            if depth < 1 and _guarded_in_every_caller(fx, c, guarded_at, depth + 1):
+                continue
+            return False
+    return True
+
+
+def floor_guard(e, side, param_reach=False):
     """does the branch outcome establish  len > ds_len  or  len - ds_len >= k (k >= 1)?  (either
     spelling: `if len > floor {..}` or `if len <= floor {return Err}`)"""
     c = cmp_on_side(e, side)
@@ -58,7 +82,17 @@ def floor_guard(e, side):
         return op == 'Gt' or _const_ge1(b)          # len > ds_len
     if 'ds_len' in sa and ('Sub' in sa or 'data_depth' in sa):
         k = lin(b)
-        return k is not None and not k[0] and (k[1] >= 1 if op == 'Ge' else k[1] >= 0)   # len - ds_len >= k
+        if k is not None and not k[0] and (k[1] >= 1 if op == 'Ge' else k[1] >= 0):   # len - ds_len >= k
+            return True
+        # ... or the reach a helper was asked for: depth >= back, depth >= back + 1 (the bound is the helper's own parameter,
+        # nothing of the machine state)
+        leaves = [x for x in expr_walk(b) if isinstance(x, tuple) and x and x[0] in ('arg', 'call')]
+        if param_reach and leaves and all(x[0] == 'arg' and x[1] >= 2 for x in leaves):
+            return True
+    if param_reach and 'data_depth' in sa and 'ds_len' not in sb:
+        leaves = [x for x in expr_walk(b) if isinstance(x, tuple) and x and x[0] in ('arg', 'call')]
+        if leaves and all(x[0] == 'arg' and x[1] >= 2 for x in leaves):
+            return True
     return False
 
 
@@ -109,6 +143,10 @@ def run(rep, facts, tier):
                     rep.add('C11.R1', key, True, 'slice data_stack[ctx.ds_len..]', fn, ev['at'])
                 elif _derived_from_floor_slice(f, ev):
                     rep.add('C11.R1', key, True, 'walks the slice data_stack[ctx.ds_len..]', fn, ev['at'], nontrivial=False)
+                elif any(floor_guard(e, side, True) for (_, e, side) in guards_of(f, ev['bb'])):
+                    rep.add('C11.R1', key, True, 'access dominated by a comparison of the visible depth with the reach the function was asked for', fn, ev['at'])
+                elif _guarded_in_every_caller(fx, fn, lambda g, bb: any(floor_guard(e, side) for (_, e, side) in guards_of(g, bb))):
+                    rep.add('C11.R1', key, True, 'a private helper of the guarded primitives: every call of it stands behind a comparison with ctx.ds_len', fn, ev['at'])
                 else:
                     rep.add('C11.R1', key, False,
                             '%s reads or changes the whole data stack (%s) without a floor: inside a meta block it sees the enclosing program\'s values'
@@ -124,10 +162,13 @@ def run(rep, facts, tier):
                     s = expr_str(e, -10)
                     if ('ContextMode' in s or 'mode' in s) and not side:
                         gated = True
+                if not gated:
+                    gated = _guarded_in_every_caller(fx, fn, lambda g, bb: any((('ContextMode' in expr_str(e, -10) or 'mode' in expr_str(e, -10)) and not side)
+                                                                               for (_, e, side) in guards_of(g, bb)))
                 rep.add('C11.R2', key, gated, 'behind the false edge of `mode == MetaEval`' if gated else
                         '%s accesses the variable heap (%s) without the meta-mode test: a meta block can read or change variables' % (short(fn), short(c) or ev['how']),
                         fn, ev['at'])
-    rep.floor('C11.R1 data_stack access events in words', n_ds, 30)
+    rep.floor('C11.R1 data_stack access events in words', n_ds, 24)
     rep.floor('C11.R2 heap access events in words', n_heap, 6)
     # callers of the slicers pass a mark made in this context
     Vs = inline.View(fx)
@@ -153,6 +194,8 @@ def run(rep, facts, tier):
                 c = cmp_of(br[0])
                 if c and c[0] == 'Gt' and 'data_depth' in expr_str(c[2], -10):
                     okc = True
+                if c and c[0] == 'Lt' and 'data_depth' in expr_str(c[1], -10) and 'data_depth' not in expr_str(c[2], -10):
+                    okc = True        # the same test spelled depth < n
         # the same bound spelled data_depth().checked_sub(n): None (-> StackUnderflow) exactly when n > depth
         for bb, t in cf.calls():
             if (callee_of(t) or '').endswith('<impl usize>::checked_sub') and 'data_depth' in expr_str(cf.expr_of_operand(t['args'][0]), -10):
